@@ -4,6 +4,7 @@ arguments, never by a PRNG at execution time."""
 
 import sys
 
+from . import core
 from .core import (
     AC, SimCrash, SYMMRAY_DIR, LRU_CACHES, clear_lru, set_cache_limits, sr,
     HarnessError,
@@ -83,14 +84,14 @@ def run_crashing(fn, n, exclude=()):
 
 
 def cache_signature():
-    return (len(AC._fuseinfos), AC._fuseinfo_cache_maxsize,
-            AC._fuseinfo_cache_maxsectors)
+    return (len(core.CACHE._fuseinfos), core.CACHE._fuseinfo_cache_maxsize,
+            core.CACHE._fuseinfo_cache_maxsectors)
 
 
 def apply_cache_event(a, heap=None):
     """F1: perturb process-wide caches. Returns a short tag of what fired."""
     act = a["action"]
-    fi = AC._fuseinfos
+    fi = core.CACHE._fuseinfos
     if act == "evict_oldest":
         if fi:
             fi.popitem(last=False)
